@@ -676,18 +676,21 @@ class MirIndex:
             kind = m.group(1)
             hdr = m.group(2)
             start = m.start()
-            end = text.find('\n}\n', start)
-            if end == -1:
-                end = len(text)
+            if hdr.rstrip().endswith(';'):
+                end = m.end() + 1          # one-line item:  const NAME: T = const VALUE;
             else:
-                end += 3
+                end = text.find('\n}\n', start)
+                if end == -1:
+                    end = len(text)
+                else:
+                    end += 3
             if kind == 'fn':
                 name, params, ret = _split_fn_header(hdr)
             else:
                 # const NAME: TYPE = {
                 k = _find_top(hdr, ': ')
                 name = hdr[:k]
-                params, ret = [], hdr[k + 2:].rsplit(' = {', 1)[0]
+                params, ret = [], hdr[k + 2:].rsplit(' = ', 1)[0]
             self.spans[name] = (start, end, kind.split()[0], params, ret)
             if kind == 'fn' and params:
                 t = params[0][1]
@@ -722,6 +725,16 @@ class MirIndex:
         for (loc, ty) in params:
             f.params.append((loc, ty))
             f.locals[loc] = ty
+        first = body.split('\n', 1)[0].rstrip()
+        if kind != 'fn' and first.endswith(';') and ' = ' in first:
+            # one-line constant
+            val = first.rsplit(' = ', 1)[1][:-1]
+            blk = Block()
+            blk.stmts.append(('assign', Place(0), parse_rvalue(val)))
+            blk.term = Term('return')
+            f.blocks[0] = blk
+            f.locals[0] = ret
+            return f
         lines = body.split('\n')
         cur = None
         i = 1
